@@ -369,7 +369,7 @@ func utf16ColumnToByteOffset(line string, character int) int {
 // This method is safe for concurrent use as it operates on document fields
 // without modifying state.
 func (doc *Document) GetWordAtPosition(pos Position) string {
-	if pos.Line >= len(doc.Lines) {
+	if pos.Line < 0 || pos.Character < 0 || pos.Line >= len(doc.Lines) {
 		return ""
 	}
 
